@@ -604,6 +604,30 @@ def run(ctx):
                                   ('one planner object' if mode == 'planner' else 'the same catalog objects'),
                                   {'history': h[:pos + 1], 'mode': mode, 'alone': short(b[0] + ' ' + b[1]),
                                    'in_history': short(a[0] + ' ' + a[1])})
+    # ... the same catalog OBJECTS (model records without integration_name, list and legacy dict form) handed to calls that
+    # differ in their scalar options (predictor_namespace): what the first call completes in its records must not reach the second
+    for form in ('list', 'dict'):
+        recs = [{'name': 'pred'}, {'name': 'pred2', 'to_predict': ['y']}]
+        meta_ = recs if form == 'list' else {r_['name']: {k_: v_ for k_, v_ in r_.items() if k_ != 'name'} for r_ in recs}
+        for ns1, ns2 in (('proj1', 'proj2'), ('proj2', 'proj1'), ('mindsdb', 'proj1'), ('proj1', 'mindsdb')):
+            for tmpl in ('select * from int1.t1 as t join %s.pred as m', 'select * from %s.pred2 where a = 1',
+                         'select * from int1.t1 as t join %s.pred as m join %s.pred2 as m2'):
+                shared_ = copy.deepcopy(meta_)
+                kw1 = dict(integrations=['int1', 'int2'], predictor_metadata=shared_, predictor_namespace=ns1)
+                kw2 = dict(integrations=['int1', 'int2'], predictor_metadata=shared_, predictor_namespace=ns2)
+                sql1, sql2 = tmpl.replace('%s', ns1), tmpl.replace('%s', ns2)
+                planhist.run_history([sql1], kw1, 'catalog')
+                (_s, st, plan), = planhist.run_history([sql2], kw2, 'catalog')
+                fsql, fst, fplan = planhist.fresh(sql2, dict(kw2, predictor_metadata=copy.deepcopy(meta_)))
+                n_ph += 1
+                a = (st, jdump(plan_proj(plan)) if plan is not None else '')
+                b = (fst, jdump(plan_proj(fplan)) if fplan is not None else '')
+                if a != b:
+                    ctx.violation('history-dependent:plan:catalog-other-options',
+                                  'the plan of a query depends on an earlier call that was given the same catalog objects with another '
+                                  'predictor_namespace (the planner wrote into the caller\'s records)',
+                                  {'history': [sql1, sql2], 'namespaces': [ns1, ns2], 'catalog_form': form, 'alone': short(b[0] + ' ' + b[1]),
+                                   'in_history': short(a[0] + ' ' + a[1])})
     ctx.cov['planner_history_plans'] = n_ph
     if jdump(proj(shared)) != cat0:
         ctx.note('planning wrote into the caller-owned catalog objects (allowed while later results are unchanged)')
